@@ -458,7 +458,7 @@ def _extremal_valid(mod, valid, budget=250000, max_groups=120):
 
 
 _corpus = None
-CORPUS_VERSION = 5      # bump when the content of the corpus changes (the cache is keyed by version and tree hash)
+CORPUS_VERSION = 6      # bump when the content of the corpus changes (the cache is keyed by version and tree hash)
 _KEEP_CACHES = 60
 
 
@@ -494,9 +494,10 @@ def corpus(max_per_module=400):
                     ok = False
                 (valid if ok else invalid).append(s)
             valid = valid[:max_per_module]
-            valid += [b for b in _boundary_valid(mod, valid) if b not in set(valid)]
+            boundary = [b for b in _boundary_valid(mod, valid) if b not in set(valid)]
+            valid += boundary
             res[mod.__name__] = {'valid': valid, 'invalid': invalid[:max_per_module],
-                                 'extremal': _extremal_valid(mod, valid)}
+                                 'boundary': boundary, 'extremal': _extremal_valid(mod, valid)}
     # trees under test come and go (seeded changes run in scratch worktrees, possibly in parallel): keep the most
     # recent caches instead of deleting everybody else's
     old = sorted(glob.glob(os.path.join(WORK, 'corpus-*.json')), key=lambda p: (_mtime(p), p))
@@ -666,7 +667,10 @@ def split_known(prop, failing):
         c = dict(c, property=prop)
         if finding_key(c) in known_inputs:
             known.append((c, known_inputs[finding_key(c)]))
-        elif c.get('site') is not None and site_key(c) in known_sites:
+        elif c.get('site') is not None and site_key(c) in known_sites and not (
+                known_sites[site_key(c)].get('max_site_count') is not None and
+                c.get('site_count', 0) > known_sites[site_key(c)]['max_site_count']):
+            # (an exhaustive engine reports how many entries fail at a site; more failures than listed = a new defect)
             known.append((c, known_sites[site_key(c)]))
         else:
             new.append(c)
